@@ -32,6 +32,9 @@ structure St where
   prevDisk : Disk := {}              -- the model's disk before the last operation
   prevMem : Option Mem := none       -- and its memory state
   lastOrder : List Nat := []         -- flush order of the last operation (read back from the index log by the engine)
+  -- D34 recogniser: the last operation was a Flush during which a Put of this digest was acknowledged at the given point
+  fpDig : Option Bytes := none
+  fpAt : String := ""
 deriving Repr
 
 def showRead (r : Driver.Seq.St → Bytes → (Mem × GetRes)) : Unit := ()
@@ -185,6 +188,13 @@ def step (st : St) (l : Line) : St × List Msg :=
     let noHeader := inTranslate && ((im.disk.ihdr.isNone && !im.badIdxHdr) ||
       ((point == "movefiles.file_moved" || point == "movefiles.header_moved" || point == "translate.old_moved") && hdrOldOrAbsent))
     let tainted := if isEnd then st.taint11 else (st.imgTaint11 || st.taint11)
+    -- D34: a Put acknowledged after the primary's pool swap and before the index's pool swap of a Flush in progress: that Flush
+    -- writes the index entry of a record it does not write
+    let d34Window := st.lastOp == "flushput" && st.fpDig.isSome &&
+      (st.fpAt == "primary.flush.swapped" || st.fpAt == "primary.flush.written" || st.fpAt == "store.commit.primary_done" ||
+       -- second form: after the index's pool swap and before the freelist's: the freelist entry for the key's OLD record is
+       -- written by this Flush, the index entry that stops naming it is not; a later cycle frees the record the index names
+       st.fpAt == "index.flush.swapped" || st.fpAt == "store.commit.index_done")
     -- D14: the resume of the offset remapping trusts `.remapped` markers, which are created before the remapped copy is renamed
     -- over the original and whose files' deletion pool is not rebuilt
     let remapMarked := im.extra.any (·.endsWith ".remapped")
@@ -197,11 +207,31 @@ def step (st : St) (l : Line) : St × List Msg :=
       if remapMarked then " [known:D14 remap-marker-before-rename]"
       else if badPoolLost && (match about with | some ds => !ds.isEmpty && ds.all (badDigests.contains ·) | none => false) then " [known:D14 remap-marker-before-rename]"
       else if noHeader then " [known:D13 translate-header-absent]" else if tornPrimary then " [known:D12 torn-primary-tail]"
-      else if tainted then " [known:D11 gc-handover-with-dirty-index]" else ""
+      else if tainted then " [known:D11 gc-handover-with-dirty-index]"
+      else if d34Window && (match about, st.fpDig with | some ds, some g => !ds.isEmpty && ds.all (· == g) | _, _ => false) then
+        " [known:D34 put-between-primary-and-index-swap]" else ""
     let tagMsg := fun (am : Option (List Bytes) × Msg) => match am.2 with
       | .prop s => Msg.prop (s ++ knownFor am.1)
       | m => m
     (st, (p0 ++ pr).map tagMsg ++ corr ++ flags)
+  | "flushput" =>
+    -- a Flush with a Put acknowledged at a named point inside it. The physical model has no such composite step: it is left
+    -- where it was (the workload ends here); the specification side is exact: everything acknowledged before is flushed by a
+    -- Flush that completes, and the Put is acknowledged after the flush began.
+    let ra := resArgs l.res
+    let kind := match st.seq.store.mem with | some m => m.kind | none => st.seq.cfg.kind
+    let dg := (indexKeyOf kind (l.args.bytes "k")).getD []
+    let acked := ra.get "put" == "ok"
+    let sinceP := if acked then (dg, some (l.args.bytes "v")) :: st.since else st.since
+    let head := (l.res.splitOn " ").headD ""
+    let spec1 := st.seq.spec
+    ({ st with lastOp := "flushput", fpDig := if acked then some dg else none, fpAt := l.args.get "at",
+               imgBase := st.base, imgSince := sinceP, imgTaint11 := st.taint11,
+               base := if head == "ok" then spec1 else st.base,
+               since := if head == "ok" then (if acked then [(dg, some (l.args.bytes "v"))] else []) else sinceP,
+               taint11 := if head == "ok" then false else st.taint11 },
+     (if head == "ok" then [] else [Msg.prop s!"Flush failed: {l.res}"]) ++
+     [Msg.flag "flush-with-put-inside", Msg.flag ("flushput@" ++ l.args.get "at")])
   | _ =>
     -- ordinary op: strip the image counter, delegate to the seq driver, track baseline and acknowledged effects
     let res' := match l.res.splitOn " images=" with
